@@ -77,4 +77,38 @@ comparison with it) cannot survive from one call to the next and every call is a
 arguments and the parameters only (what `Mask.fwdOp` / `bwdOp` / `aStarOp` / `loglik` model) -/
 theorem nn_state_writes_none : nn_state_writes = [] := by decide
 
+/-! ## phase 3 -/
+
+/-- the functions that decide the property have exactly the structure the model presupposes: the number of returns,
+no return of an input (except `apply_padding`'s documented `padding is None`), **no state written** (no `global`, no
+attribute / module-level container / function-attribute / mutable-default write, no caching decorator), **no in-place
+update of an argument**, and the same branches and loops (a size threshold or a chunking loop changes them) -/
+theorem func_facts_eq : func_facts = expectedFacts := by decide +kernel
+theorem func_facts_pure : func_facts.all FuncFacts.pure = true := by decide +kernel
+
+/-- masking sites outside `direct/nn`: verified forms, mask algebra, or a weighting of an operand `apply_mask` has already
+masked; any product of unmasked data with a mask (such as the repaired `kspace * acs_mask + 0.0`,
+`Props/C03.acs_mul_pinned_violates`) breaks this lemma -/
+theorem data_mask_sites_wf : data_mask_sites.all Site.wfData = true := by decide +kernel
+
+/-- no covered function of `direct/nn` has lost (or silently gained) a masking site -/
+theorem nn_site_counts_eq :
+    expectedSiteCounts.all (fun fc => siteCount nn_mask_sites fc.1 == fc.2) = true := by decide +kernel
+theorem nn_sites_all_counted :
+    nn_mask_sites.all (fun s => expectedSiteCounts.any (fun fc => fc.1 == s.func)) = true := by decide +kernel
+
+/-- `CreateSamplingMask.__call__` is `Mask.createSamplingMask`: default shape `kspace.shape[1:]`, `None` entries from
+`kspace.shape[1:-1]` then `+ (2,)`, complete shapes `+ (2,)`, seed = ord-tuple of the file name iff `use_seed`,
+`mask_func(shape, seed, return_acs=False)`, padding cleared with `apply_padding`, stored afterwards -/
+theorem create_sampling_mask_plan_eq :
+    create_sampling_mask_plan = [true, true, true, true, true, true, true] := by decide
+
+/-- the zero constant of `apply_mask` / `apply_padding` carries the dtype and device of the data (so float16 / float64 /
+boolean data keep their dtype, as the oracle's dtype ladder checks) -/
+theorem where_zero_dtypes_eq : where_zero_dtypes =
+    [("apply_mask", "kspace.dtype", "kspace.device"), ("apply_padding", "data.dtype", "data.device")] := by decide +kernel
+
+/-- `ApplyZeroPadding.__call__` reads and writes the configured `kspace_key` / `padding_key` and nothing else -/
+theorem apply_zero_padding_plan_eq : apply_zero_padding_plan = [true, true, true, true, true] := by decide
+
 end DirectVerif.Bridge.C03
